@@ -39,7 +39,9 @@ def gen_cases(tier: str, seed: int) -> List[Dict[str, Any]]:
     reps = [{"kind": "replace", "seed": derive_seed(seed, PROPERTY, "rep", i) % (2**31)} for i in range(32 if tier == "quick" else 160)]
     # replacement cases are spread at the FRONT of the case list: every worker runs some of them before its ordinary programs,
     # so that state leaking from a user's `replace=` into later unit_scale() calls would be seen
-    return reps + cases
+    roots = [{"kind": "root", "seed": derive_seed(seed, PROPERTY, "root", i) % (2**31), "shape": ["seq-mlp", "seq-norm", "linear", "seq-nested", "modulelist-user"][i % 5]}
+             for i in range(20 if tier == "quick" else 400)]
+    return reps + roots + cases
 
 
 def _named(m) -> Dict[str, Any]:
@@ -55,6 +57,8 @@ def run_case(case: Dict[str, Any], ctx) -> None:
     from .. import progs
 
     ctx.count("evaluations")
+    if case["kind"] == "root":
+        return run_root(case, ctx)
     rng = rng_for(case["seed"], "prog")
     replace_case = case["kind"] == "replace"
     if replace_case:
@@ -182,6 +186,80 @@ def run_case(case: Dict[str, Any], ctx) -> None:
     if any(o["op"] in ("add", "iadd", "linear_f", "nn_linear", "gelu", "silu", "softmax", "sdpa", "matmul", "layer_norm", "nn_layer_norm", "conv1d", "dropout",
                        "embedding_f", "nn_embedding", "cross_entropy", "mse_loss") for o in prog["ops"]):
         ctx.nontrivial(src)
+
+
+def run_root(case, ctx) -> None:
+    """The module handed to unit_scale() is ITSELF a torch.nn class (nn.Sequential of layers - the most common way to write a
+    small model - or a bare nn.Linear). The recipe result is written by hand: no residual additions, so every op is the
+    unconstrained unit-scaled counterpart."""
+    import torch
+    from torch import nn
+    import unit_scaling.functional as U
+    from unit_scaling.transforms import unit_scale
+    from ..instruments import grads_differ
+
+    rng = rng_for(case["seed"], "root")
+    torch.manual_seed(case["seed"])
+    d0, d1, d2 = rng.choice([8, 12, 16]), rng.choice([6, 10, 20]), rng.choice([4, 5, 9])
+    shape = case["shape"]
+    if shape == "seq-mlp":
+        m = nn.Sequential(nn.Linear(d0, d1), nn.GELU(), nn.Linear(d1, d2, bias=False))
+        recipe = lambda p, x: U.linear(U.gelu(U.linear(x, p["0.weight"], p["0.bias"], constraint=None), constraint=None), p["2.weight"], None, constraint=None)
+    elif shape == "seq-norm":
+        m = nn.Sequential(nn.Linear(d0, d1), nn.LayerNorm(d1), nn.SiLU(), nn.Linear(d1, d2))
+        recipe = lambda p, x: U.linear(U.silu(U.layer_norm(U.linear(x, p["0.weight"], p["0.bias"], constraint=None), (d1,), p["1.weight"], p["1.bias"]), constraint=None),
+                                       p["3.weight"], p["3.bias"], constraint=None)
+    elif shape == "linear":
+        m = nn.Linear(d0, d2)
+        recipe = lambda p, x: U.linear(x, p["weight"], p["bias"], constraint=None)
+    elif shape == "seq-nested":
+        m = nn.Sequential(nn.Sequential(nn.Linear(d0, d1), nn.GELU()), nn.Linear(d1, d2))
+        recipe = lambda p, x: U.linear(U.gelu(U.linear(x, p["0.0.weight"], p["0.0.bias"], constraint=None), constraint=None), p["1.weight"], p["1.bias"], constraint=None)
+    else:  # control: the same layers held by a user-defined module
+        class Holder(nn.Module):
+            def __init__(self):
+                super().__init__()
+                self.layers = nn.ModuleList([nn.Linear(d0, d1), nn.Linear(d1, d2)])
+
+            def forward(self, x):
+                return self.layers[1](torch.tanh(self.layers[0](x)))
+        m = Holder()
+        recipe = lambda p, x: U.linear(torch.tanh(U.linear(x, p["layers.0.weight"], p["layers.0.bias"], constraint=None)), p["layers.1.weight"], p["layers.1.bias"],
+                                       constraint=None)
+    m = m.double()
+    key = "C16:root-module-is-a-torch.nn-" + ("layer" if shape == "linear" else "container" if shape != "modulelist-user" else "free-control")
+    try:
+        us = unit_scale(m)
+        x = torch.randn(7, d0, dtype=torch.float64, generator=torch.Generator().manual_seed(case["seed"]))
+        xu = x.clone().requires_grad_(True)
+        yu = us(xu)
+        up = torch.randn(yu.shape, dtype=torch.float64, generator=torch.Generator().manual_seed(case["seed"] + 1))
+        pu = _named(us)
+        gu = torch.autograd.grad(yu, [xu] + [pu[k] for k in sorted(pu)], up, allow_unused=True)
+    except Exception as e:
+        ctx.violation(key + ":raises:" + exc_key(e), repr(e), shape=shape)
+        return
+    ctx.count("root:modules-compared")
+    pr = {k: v.detach().clone().requires_grad_(True) for k, v in pu.items()}
+    xr = x.clone().requires_grad_(True)
+    yr = recipe(pr, xr)
+    gr = torch.autograd.grad(yr, [xr] + [pr[k] for k in sorted(pr)], up, allow_unused=True)
+    sc = max(float(yr.detach().abs().max()), 1e-30)
+    if tuple(yu.shape) != tuple(yr.shape) or float((yu.detach() - yr.detach()).abs().max()) / sc > 1e-9:
+        ctx.violation(key + ":output-differs-from-the-recipe", f"max rel err {float((yu.detach() - yr.detach()).abs().max()) / sc:.3e}; output std {float(yu.std()):.3f} "
+                      f"(recipe {float(yr.std()):.3f})", shape=shape)
+        return
+    bad = grads_differ(list(gu), list(gr), 1e-9, ["x"] + sorted(pu))
+    if bad:
+        ctx.violation(key + ":gradient-differs-from-the-recipe", bad, shape=shape)
+        return
+    # re-initialisation in the returned copy: biases of the Linear layers are zero
+    lin_bias = [k for k, mod in us.named_modules() if isinstance(mod, nn.Linear) and mod.bias is not None]
+    for k in lin_bias:
+        b_ = pu[(k + "." if k else "") + "bias"]
+        if float(b_.detach().abs().max()) != 0.0:
+            ctx.violation(key + ":linear-bias-not-zero-in-the-returned-copy", k, shape=shape)
+    ctx.nontrivial(f"root|{shape}|{d0}|{d1}|{d2}")
 
 
 def explain(prog, usp, inputs, outs_u, interp_replace, mod_attrs, grads_u=None, ups=None) -> str:
